@@ -38,6 +38,13 @@ def main():
         print("patch does not apply:", r.stderr)
         sys.exit(2)
     res = {"tier": tier, "runs": []}
+    # evidence and replay files describe the UNCHANGED tree: keep them out of reach of the runs on the patched tree
+    import shutil
+    import tempfile
+    keep = tempfile.mkdtemp(prefix="seeded-keep-")
+    for sub in ("evidence", "replays"):
+        if os.path.isdir(os.path.join(VERIF, sub)):
+            shutil.copytree(os.path.join(VERIF, sub), os.path.join(keep, sub))
     try:
         for p in props:
             for s in seeds:
@@ -58,6 +65,11 @@ def main():
         sh("git -C %s checkout -- ." % REPO)
         # generated fact files may have been rewritten by the run on the patched tree: restore and rebuild lazily
         sh("cd %s && git checkout -- lean/EmbitModel/Generated" % VERIF)
+        for sub in ("evidence", "replays"):
+            if os.path.isdir(os.path.join(keep, sub)):
+                shutil.rmtree(os.path.join(VERIF, sub), ignore_errors=True)
+                shutil.copytree(os.path.join(keep, sub), os.path.join(VERIF, sub))
+        shutil.rmtree(keep, ignore_errors=True)
     res["detected"] = any(x["exit"] == 1 for x in res["runs"])
     json.dump(res, open(os.path.join(d, "result.json"), "w"), indent=1)
     print("detected:", res["detected"])
